@@ -51,6 +51,9 @@ def make_doc_factory(kind):
         if kind == "paged":
             return Doc(df=pl.DataFrame({"g": ["G0v0", "G0v0", "G0v1"], "a": ["D0.1", "D1.1", "D2.1"]}), rtf_page=rtf.RTFPage(nrow=3),
                        rtf_body=rtf.RTFBody(page_by=["g"], text_color="red"), rtf_source=rtf.RTFSource(text="Z0"))
+        if kind == "ctrl":  # texts holding characters that str.splitlines() / universal newlines treat as line ends
+            return Doc(df=pl.DataFrame({"a": ["D0.0 x\ry", "D1.0 p\r\nq"], "b": ["u\x0cv", "w\x0bz\x1c"]}), rtf_title=rtf.RTFTitle(text="T0 a\rb", text_convert=False),
+                       rtf_footnote=rtf.RTFFootnote(text="F0 end\r"))
         from ..explore.histpool import _png_path
 
         return Doc(rtf_figure=rtf.RTFFigure(figures=[_png_path()], fig_width=2, fig_height=1), rtf_title=rtf.RTFTitle(text="T0"))
@@ -166,7 +169,8 @@ def judge(r, method, stub_mode, pre):
             out.append(("target-content-wrong-on-success", f"export returned but the target holds {str(after.get(tgt))[:50]!r} (expected {len(want or b'')} bytes)"))
         allowed = {tgt}
         if method == "html" and stub_mode == "html_res":
-            res_dir = tgt + "_files"
+            # the folder keeps the name the converter gave it (<stem>.html_files: the page links to it by that name) and sits next to the target
+            res_dir = os.path.join(os.path.dirname(tgt), os.path.splitext(os.path.basename(tgt))[0] + ".html_files")
             allowed |= {res_dir + os.sep + "img.png"}
             if after.get(res_dir + os.sep + "img.png") != b"RES":
                 out.append(("html-resources-missing", f"resource folder not at {res_dir}"))
@@ -180,16 +184,17 @@ def judge(r, method, stub_mode, pre):
 
 def eval_case(case: dict) -> dict:
     method, stub, pre, kind = case["method"], case["stub"], case["pre"], case.get("doc", "table")
+    tname = case.get("target_name")
     make = make_doc_factory(kind)
     viol = []
     cnt = {"runs": 0, "faults_propagated": 0, "faults_swallowed": 0, "exports_ok": 0, "exports_raised": 0}
 
     def one(fault_at=None, cls=F.Fault, second=None, record=False):
-        r = F.run_export(make, method, stub, pre, fault_at=fault_at, fault_cls=cls, record_sites=record, second_fault_at=second)
+        r = F.run_export(make, method, stub, pre, fault_at=fault_at, fault_cls=cls, record_sites=record, second_fault_at=second, target_name=tname)
         cnt["runs"] += 1
         cnt["exports_ok" if r["result"][0] == "ok" else "exports_raised"] += 1
         for sig, detail in judge(r, method, stub, pre):
-            viol.append({"klass": None, "sig": f"{sig}-{method}", "detail": f"write_{method} doc={kind} target={pre} converter={stub} fault_at={fault_at}"
+            viol.append({"klass": None, "sig": f"{sig}-{method}", "detail": f"write_{method} doc={kind} target={pre}{' name=' + tname if tname else ''} converter={stub} fault_at={fault_at}"
                                                                           f"{'/' + str(second) if second else ''} ({cls.__name__ if fault_at else 'no fault'}): {detail}"})
         return r
 
@@ -271,11 +276,22 @@ def plan(run):
                     continue
                 for kind in (DOCS if (not quick or m == "rtf") else ("table",)):
                     base.append({"mode": "nofault", "method": m, "stub": stub, "pre": pre, "doc": kind})
+    # target names whose suffix is not the format's own (the converter names its output <stem>.<format>), and documents
+    # whose texts hold CR / CRLF / FF / VT / FS (characters some text APIs treat as line ends)
+    for m, names in (("html", ("report.htm", "report.xhtml", "report", "re port.HTML")), ("pdf", ("report.PDF", "report")), ("docx", ("report.doc", "report")),
+                     ("rtf", ("report.txt", "report"))):
+        for nm in names:
+            for pre in ("absent", "exists"):
+                for stub in ((None,) if m == "rtf" else (("ok", "html_res", "real_ok") if m == "html" else ("ok", "real_ok"))):
+                    base.append({"mode": "nofault", "method": m, "stub": stub, "pre": pre, "doc": "table", "target_name": nm})
+    for m in METHODS:
+        for pre in ("absent", "exists_same"):
+            base.append({"mode": "nofault", "method": m, "stub": (None if m == "rtf" else "ok"), "pre": pre, "doc": "ctrl"})
     info = {}
 
     def on_res(r):
         c = r["_case"]
-        if "site_points" in r:
+        if "site_points" in r and not c.get("target_name") and c["doc"] != "ctrl":
             info[(c["method"], c["stub"], c["pre"], c["doc"])] = (r["ncalls"], r["site_points"], r["nsites"])
 
     run.layer("matrix-no-fault", "mc.props.c18:eval_case", base, chunk=4, total=len(base), on_result=on_res)
